@@ -6,7 +6,7 @@ from protocol import pm, ON, OFF, WAIT, TIMESIG, KEYSIG
 def gen_op(rng, others_abs, others_rel, reads=True, allow_scale=True):
     """one legal public operation with integer arguments (tuple format of pyimpl._seq_step)"""
     choices = [
-        ("normalise",), ("pad", rng.choice([0, 24, 50, 96, 300])), ("setChannel", rng.randrange(4)),
+        ("normalise",), ("pad", rng.choice([0, 24, 50, 96, 300, 7, 49, 97])), ("setChannel", rng.randrange(4)),
         ("cutoff", rng.choice([6, 12, 24]), rng.choice([1, 3, 6])), ("quantise", None), ("quantise", rng.choice([[12], [6, 4], [24]])),
         ("qnl", None, False), ("qnl", rng.choice([[6, 12, 24], [12]]), True), ("quantiseAndNormalise",),
         ("refresh",), ("copy",), ("transpose", rng.choice([1, -1, 12, -12, 7, -50, 60, 3])),
@@ -31,10 +31,13 @@ def gen_op(rng, others_abs, others_rel, reads=True, allow_scale=True):
     return rng.choice(choices)
 
 
-def gen_history(rng, length, reads=True):
+def gen_history(rng, length, reads=True, ext=None, ext_p=0.3):
+    """`ext`: optional generator `ext(rng, others_abs)` of further operations (audit O11: time edits through the iterators, read-only public
+    calls; harness/h4seq_util.gen_ext_op), drawn with probability `ext_p` per step — callers that do not pass it get the alphabet as before"""
     others_abs = [G.gen_wf_abs(rng, n_notes=rng.randint(0, 3), channels=(0, 1), max_tick=60, max_dur=20)[0] for _ in range(2)]
     others_rel = [G.gen_wf_rel(rng, n_notes=rng.randint(0, 3), channels=(0, 1), max_tick=60, max_dur=20)[0] for _ in range(2)]
-    return [gen_op(rng, others_abs, others_rel, reads=reads) for _ in range(length)]
+    return [ext(rng, others_abs) if ext is not None and rng.random() < ext_p else gen_op(rng, others_abs, others_rel, reads=reads)
+            for _ in range(length)]
 
 
 def gen_init(rng):
